@@ -65,6 +65,7 @@ type c04Case struct {
 	Blen string `json:"blen"`
 	Mut  string `json:"mut"`
 	Off  string `json:"off"`
+	Len  string `json:"len"`
 	Opt  string `json:"opt"`
 	// hostile tar for the builder
 	Tar []c04TarEnt `json:"tar"`
@@ -81,6 +82,7 @@ type c04Blob struct {
 	Blob   string `json:"blob"` // base64
 	TocOpt int64  `json:"tocopt"`
 	Names  []string `json:"names"`
+	Zstd   bool   `json:"zstd"` // footer case: the stores also open it with the decompressors fs/layer registers (zstd:chunked)
 }
 
 var c04Zw *gzip.Writer
@@ -208,6 +210,10 @@ func c04BuildFooter(c c04Case) ([]byte, int64) {
 	switch c.Off {
 	case "zero":
 		off = 0
+	case "small":
+		off = 16
+	case "near63":
+		off = 1<<63 - 16
 	case "inside":
 		off = uint64(tocOff)
 	case "size":
@@ -231,11 +237,24 @@ func c04BuildFooter(c c04Case) ([]byte, int64) {
 		footer = make([]byte, 40)
 		binary.LittleEndian.PutUint64(footer[0:8], off)
 		ln := uint64(100)
-		if c.Off == "max" {
+		switch c.Len {
+		case "zero":
+			ln = 0
+		case "wrap": // offset + length = 2^63: the sum leaves int64
+			ln = 1<<63 - off
+		case "max63":
+			ln = 1<<63 - 1
+		case "big62":
+			ln = 1 << 62
+		case "max64":
 			ln = 1<<64 - 1
+		default:
+			if c.Off == "max" {
+				ln = 1<<64 - 1
+			}
 		}
-		binary.LittleEndian.PutUint64(footer[8:16], ln)
-		binary.LittleEndian.PutUint64(footer[16:24], 100)
+		binary.LittleEndian.PutUint64(footer[8:16], ln)  // compressed length of the manifest
+		binary.LittleEndian.PutUint64(footer[16:24], ln) // uncompressed length
 		binary.LittleEndian.PutUint64(footer[24:32], 1)
 		copy(footer[32:40], []byte{0x47, 0x6e, 0x55, 0x6c, 0x49, 0x6e, 0x55, 0x78})
 		if c.Mut == "zmagic" {
@@ -720,7 +739,7 @@ func TestVerifC04Parent(t *testing.T) {
 				continue
 			case cs.Kind != "":
 				blob, opt := c04BuildFooter(cs)
-				b = c04Blob{Case: cs.ID, Blob: base64.StdEncoding.EncodeToString(blob), TocOpt: opt}
+				b = c04Blob{Case: cs.ID, Blob: base64.StdEncoding.EncodeToString(blob), TocOpt: opt, Zstd: true}
 			default:
 				blob, names := c04BuildToc(cs)
 				b = c04Blob{Case: cs.ID, Blob: base64.StdEncoding.EncodeToString(blob), Names: names}
